@@ -376,6 +376,61 @@ func TestC19(t *testing.T) {
 		}
 	}
 
+	// ---------------- 3b. the same on the receiving side: after a wire round trip whatever is rebuilt must be consistent
+	// (a rebuilt response names the rebuilt proposal; a preparation hash, if present, is the proposal's hash), for
+	// every primary index and every subset of {proposal, response, response}
+	for _, h := range heights {
+		for _, v := range views {
+			pool := recoveryPool(h, v)
+			for mask := 1; mask < 8; mask++ {
+				for _, prim := range []uint16{0, 1, 3} {
+					rm := consensus.NewRecoveryMessage(nil)
+					orig := pool[0].ValidatorIndex()
+					pool[0].SetValidatorIndex(prim)
+					for i, q := range pool[:3] {
+						if mask&(1<<i) != 0 {
+							rm.AddPayload(q)
+						}
+					}
+					rp := consensus.NewConsensusPayload(dbft.RecoveryMessageType, h, 2, v, rm)
+					want := pool[0].Hash()
+					pool[0].SetValidatorIndex(orig)
+					for _, wire := range []bool{false, true} {
+						var cp CP = rp
+						if wire {
+							q, err, pan := decodePayload(rp.(*consensus.Payload).MarshalUnsigned())
+							if err != nil || pan != nil {
+								continue // reported by section 2
+							}
+							cp = q
+						}
+						m := cp.GetRecoveryMessage()
+						r.evals++
+						var reqHash *U
+						if mask&1 != 0 {
+							req := m.GetPrepareRequest(cp, nil, prim)
+							if req == nil || req.Hash() != want {
+								r.fail("C19/recovery/rebuilt-proposal-hash", fmt.Sprintf("h=%d v=%d subset=%03b primary=%d wire=%v: rebuilt PrepareRequest hash differs from the original", h, v, mask, prim, wire))
+								continue
+							}
+							hh := req.Hash()
+							reqHash = &hh
+						}
+						if ph := m.PreparationHash(); ph != nil && reqHash != nil && *ph != *reqHash {
+							r.fail("C19/recovery/preparation-hash-is-not-the-proposal-hash", fmt.Sprintf("h=%d v=%d subset=%03b primary=%d wire=%v", h, v, mask, prim, wire))
+						}
+						for _, q := range m.GetPrepareResponses(cp, nil) {
+							r.evals++
+							if reqHash != nil && q.GetPrepareResponse().PreparationHash() != *reqHash {
+								r.fail("C19/recovery/rebuilt-response-names-other-hash", fmt.Sprintf("h=%d v=%d subset=%03b primary=%d wire=%v: a rebuilt PrepareResponse does not name the rebuilt proposal", h, v, mask, prim, wire))
+							}
+						}
+					}
+				}
+			}
+		}
+	}
+
 	// ---------------- 4. decoders fail cleanly on arbitrary bytes
 	nbytes := 0
 	// the decoders are fed from 16 goroutines (each gob decoder is independent)
